@@ -6,7 +6,7 @@
 (* modules and names the first clause that disagrees.  Verdicts are total: *)
 (* a disagreement is printed as <<"RJ", id, clause>> and the trace goes on.*)
 (***************************************************************************)
-EXTENDS Bytes, Base58, Wire, Bech32, Oracle, Json, IOUtils, TLC
+EXTENDS Bytes, Base58, Wire, Bech32, PathGrammar, Oracle, Json, IOUtils, TLC
 
 Trace == JsonDeserialize(IOEnv.TRACE_FILE)
 
@@ -119,6 +119,56 @@ V_SegwitDec(e) ==            \* e.inp = [hrp, addr] (+ orig: the valid address i
      ELSE "ok"
 
 ---------------------------------------------------------------------------
+\* C17 path strings
+\* e.fold: sequence of [list, node] - iterated single-step derivation from a fresh
+\* master by the implementation itself (its correctness is C01's business)
+HasFold(e, list) == \E j \in 1..Len(e.fold) : e.fold[j].list = list
+FoldOf(e, list) == IF HasFold(e, list)
+                   THEN e.fold[CHOOSE j \in 1..Len(e.fold) : e.fold[j].list = list].node
+                   ELSE IF PrintT(<<"MISS", e.id, "fold">>) THEN <<>> ELSE <<>>
+InRange(lst) == \A i \in 1..Len(lst) : Len(lst[i]) = 4
+\* the named deviation of the pinned code: everything after the fifth component is ignored
+TailIgnoredList(str) == LET t == Parse(TruncatedString(str)) IN IF t.kind = "ok" THEN t.list ELSE << <<-2>> >>
+
+V_PathParse(e) ==            \* e.inp = str; e.res.v = [list, str, private]
+  LET p == Parse(e.inp)
+  IN IF p.kind = "either" THEN "ok"
+     ELSE IF p.kind = "ok" /\ Len(p.list) <= 5
+          THEN IF Raised(e) THEN "parse-raised-on-valid"
+               ELSE IF e.res.v.list # p.list THEN "parse-list"
+               ELSE IF e.res.v.private # p.private THEN "parse-root"
+               ELSE IF e.res.v.str # Format(p.private, p.list) THEN "parse-format"
+               ELSE "ok"
+     ELSE IF p.kind = "ok"       \* more than five levels: honoured in full or rejected
+          THEN IF Raised(e) THEN "ok"
+               ELSE IF e.res.v.list = p.list THEN "ok"
+               ELSE IF e.res.v.list = IgnoreTail(p.list) THEN "deep-tail-ignored"
+               ELSE "parse-list"
+     ELSE \* reject: an exception here, or a list whose derivation must fail (judged in ByPath)
+          IF Raised(e) \/ ~InRange(e.res.v.list) THEN "ok"
+          ELSE IF NTok(e.inp) > 5 /\ e.res.v.list = TailIgnoredList(e.inp) THEN "deep-tail-ignored"
+          ELSE "parse-accepted-" \o p.why
+
+V_ByPath(e) ==               \* e.inp = [path, wallet]; e.res.v = [node, repr]
+  LET p == Parse(e.inp.path)
+  IN IF p.kind = "either" THEN "ok"
+     ELSE IF p.kind = "ok" /\ Len(p.list) <= 5
+          THEN IF Raised(e) THEN "bypath-raised-on-valid"
+               ELSE IF e.res.v.node # FoldOf(e, p.list) THEN "bypath-not-fold-of-ckd"
+               ELSE IF e.res.v.repr # Format(TRUE, p.list) THEN "bypath-node-repr"
+               ELSE "ok"
+     ELSE IF p.kind = "ok"
+          THEN IF Raised(e) THEN "ok"
+               ELSE IF e.res.v.node = FoldOf(e, p.list) THEN "ok"
+               ELSE IF e.res.v.node = FoldOf(e, IgnoreTail(p.list)) THEN "deep-tail-ignored"
+               ELSE "bypath-not-fold-of-ckd"
+     ELSE IF Raised(e) THEN "ok"
+          ELSE IF NTok(e.inp.path) > 5 /\ InRange(TailIgnoredList(e.inp.path))
+                  /\ HasFold(e, TailIgnoredList(e.inp.path))
+                  /\ e.res.v.node = FoldOf(e, TailIgnoredList(e.inp.path)) THEN "deep-tail-ignored"
+          ELSE "bypath-derived-from-malformed-" \o p.why
+
+---------------------------------------------------------------------------
 Verdict(e) ==
   CASE e.act = "B58Enc" -> V_B58Enc(e)
     [] e.act = "B58Dec" -> V_B58Dec(e)
@@ -130,6 +180,8 @@ Verdict(e) ==
     [] e.act = "VarintRead" -> V_VarintRead(e)
     [] e.act = "SegwitEnc" -> V_SegwitEnc(e)
     [] e.act = "SegwitDec" -> V_SegwitDec(e)
+    [] e.act = "PathParse" -> V_PathParse(e)
+    [] e.act = "ByPath" -> V_ByPath(e)
     [] OTHER -> "unknown-act"
 
 TraceInit == l = 1
